@@ -21,7 +21,13 @@ def cases_for(ctx):
                     sel.append((i, fl))
             if "PSK" in i:
                 sel.append((i, ["psk"]))
-    return [{"name": "%s[%s]" % (p, "+".join(f)), "parrot": p, "flags": f} for p, f in sel]
+    # the first ClientHello of a parrot is mutated once (in its first case); the other cases of the same parrot
+    # start at the second client message
+    seen, out = set(), []
+    for p, f in sel:
+        out.append({"name": "%s[%s]" % (p, "+".join(f)), "parrot": p, "flags": f, "from": 2 if (p in seen and "psk" not in f) else 1})
+        seen.add(p)
+    return out
 
 
 def run(ctx):
